@@ -14,6 +14,7 @@ import DaskModel.Model.MergePlanIO
 import DaskModel.Model.PartQuantIO
 import DaskModel.Model.GroupbyXIO
 import DaskModel.Model.AlignDivsIO
+import DaskModel.Model.LocListIO
 open Dask
 
 /-- `(sdl (seq…) npartitions n)` / `(sdl (seq…) chunksize c)` ↦ `(ok (divisions…) (locations…))` | `(raised)` -/
@@ -403,6 +404,6 @@ def table : List (String × Handler) := [("sdl", hSdl), ("sdl-stats", hSdlStats)
   ("tofewer-bounds", hToFewerBounds), ("split-positions", hSplitPositions), ("nsplits", hNsplits),
   ("lower-kind", hLowerKind), ("div-layer", hDivLayer), ("div-layer-ok", hDivLayerOK), ("repart-divs", hRepartDivs),
   ("tofewer", hToFewer), ("tomore", hToMore),
-  ("iter-chunks", hIterChunks), ("size-nsplits", hSizeNsplits), ("repart-size", hRepartSize)] ++ Dask.CsvOpts.handlers ++ Dask.MergeAsof.handlers ++ Dask.Align.handlers ++ Dask.MergePlan.handlers ++ Dask.SortValuesIO.handlers ++ Dask.PQ.handlers ++ Dask.GroupbyX.handlers ++ Dask.AlignDivs.handlers
+  ("iter-chunks", hIterChunks), ("size-nsplits", hSizeNsplits), ("repart-size", hRepartSize)] ++ Dask.CsvOpts.handlers ++ Dask.MergeAsof.handlers ++ Dask.Align.handlers ++ Dask.MergePlan.handlers ++ Dask.SortValuesIO.handlers ++ Dask.PQ.handlers ++ Dask.GroupbyX.handlers ++ Dask.AlignDivs.handlers ++ Dask.LocList.handlers
 
 def main : IO Unit := runDriver table
